@@ -441,6 +441,7 @@ func c12Goroutines(w *World, r *Report) {
 		})
 	}
 	r.Floor("R4", 6)
+	streamCloseChannelFresh(w, r, "R4")
 	transportCloseRule(w, r, "R6")
 	// blocking channel operations inside goroutine bodies and the functions they run
 	type chanOp struct {
